@@ -79,6 +79,9 @@ def m_sin(cx, x):
     s, c = _SIN(x), _COS(x)
     cx.fact(s * s + c * c == 1, "math:sin2+cos2")
     cx.fact(z3.And(s >= -1, s <= 1), "math:|sin|<=1")
+    _pi_facts(cx)
+    cx.fact(z3.And(z3.Implies(z3.And(x >= 0, x <= PI), s >= 0), z3.Implies(z3.And(x > 0, x < PI), s > 0)), "math:sin>=0 on [0,pi]")
+    cx.fact(z3.Implies(z3.And(x > -PI / 2, x < PI / 2), c > 0), "math:cos>0 on (-pi/2,pi/2)")
     if z3.is_rational_value(x) and x.numerator_as_long() == 0:
         cx.fact(s == 0, "math:sin(0)")
         cx.fact(c == 1, "math:cos(0)")
@@ -90,6 +93,9 @@ def m_cos(cx, x):
     s, c = _SIN(x), _COS(x)
     cx.fact(s * s + c * c == 1, "math:sin2+cos2")
     cx.fact(z3.And(c >= -1, c <= 1), "math:|cos|<=1")
+    _pi_facts(cx)
+    cx.fact(z3.Implies(z3.And(x > -PI / 2, x < PI / 2), c > 0), "math:cos>0 on (-pi/2,pi/2)")
+    cx.fact(z3.And(z3.Implies(z3.And(x >= 0, x <= PI), s >= 0), z3.Implies(z3.And(x > 0, x < PI), s > 0)), "math:sin>=0 on [0,pi]")
     if z3.is_rational_value(x) and x.numerator_as_long() == 0:
         cx.fact(s == 0, "math:sin(0)")
         cx.fact(c == 1, "math:cos(0)")
